@@ -369,6 +369,9 @@ macro_rules! impl_fam {
                         $rc::ptr_eq(&a, &b),
                         a
                     );
+                    // the caller's format spec reaches the value's impl
+                    s += &format!(" dbgspec={:#?}|{:14?}|{:<14?}|{:>+14.2?}|", a, a, a, a);
+                    s += &format!(" ptrspec={}|{}", format!("{:p}", a) == format!("{:p}", $rc::as_ptr(&a)), format!("{:24p}", a) == format!("{:24p}", $rc::as_ptr(&a)));
                     let w = $rc::downgrade(&a);
                     s += &format!(" sc={} wc={}", $rc::strong_count(&a), $rc::weak_count(&a));
                     let p = $rc::into_raw(a);
@@ -405,11 +408,15 @@ macro_rules! impl_fam {
                     let z = y.clone();
                     one(x, y, z, same)
                 }
+                fn disp<T: std::fmt::Display>(x: T, w: usize, p: usize) -> String {
+                    let a = $rc::new(x);
+                    format!(" display={}|{:>9}|{:*<9}|{:^9}|{:+}|{:09.3}|{:.2}|{:w$.p$}|", a, a, a, a, a, a, a, a, w = w, p = p)
+                }
                 const F: [f64; 6] = [f64::NAN, 0.0, -0.0, 1.5, f64::INFINITY, -2.0];
                 match ty % 7 {
-                    0 => run(F[a as usize % 6], F[b as usize % 6], same),
-                    1 => run(F[a as usize % 6] as f32, F[b as usize % 6] as f32, same),
-                    2 => run(a, b, same),
+                    0 => run(F[a as usize % 6], F[b as usize % 6], same) + &disp(F[a as usize % 6] * 1.23456, 5 + b as usize % 8, a as usize % 5),
+                    1 => run(F[a as usize % 6] as f32, F[b as usize % 6] as f32, same) + &disp(F[b as usize % 6] as f32 * 0.5, 4 + a as usize % 9, b as usize % 4),
+                    2 => run(a, b, same) + &disp(a as i16 - 100, 3 + b as usize % 6, 0) + &disp(format!("s{}", b), 2 + a as usize % 7, 1 + b as usize % 3),
                     3 => run((), (), same),
                     4 => run([a, b, 3], [b, a, 3], same),
                     5 => run(Some(F[a as usize % 6]), if b % 5 == 0 { None } else { Some(F[b as usize % 6]) }, same),
